@@ -69,6 +69,9 @@ class DefUse:
                             if m:
                                 out.add(('named_const', m.group(1)))
                         continue
+                    am = re.match(r"^((?:[\w]+::)+(?:<[^>]*>::)?\w+)(?:\((.*)\)| \{(.*)\})?$", rhs)
+                    if am and '::' in am.group(1) and not rhs.startswith(('move ', 'copy ', 'const ')):
+                        out.add(('agg', am.group(1), bid, rhs))
                     m = re.match(r'^(\w+)\((.*)\)$', rhs)
                     if m and m.group(1) in ('Add', 'Sub', 'Mul', 'Div', 'Rem', 'CheckedAdd', 'CheckedSub', 'CheckedMul',
                                             'Lt', 'Le', 'Gt', 'Ge', 'Eq', 'Ne', 'BitAnd', 'BitOr', 'BitXor', 'Shl', 'Shr',
